@@ -19,7 +19,7 @@ IRFLAGS_INL = ['-std=c++17', '-O1', '-fno-vectorize', '-fno-slp-vectorize', '-fn
 IRFLAGS_O0 = ['-std=c++17', '-O0', '-Xclang', '-disable-O0-optnone', '-w', '-S', '-emit-llvm']
 
 CBMC_BASE = ['--unwinding-assertions', '--drop-unused-functions', '--object-bits', '12',
-             '--no-signed-overflow-check', '--no-undefined-shift-check', '--trace', '--verbosity', '6']
+             '--no-signed-overflow-check', '--no-undefined-shift-check', '--trace', '--verbosity', '8']
 
 _lock = threading.Lock()
 _built = {}          # cache key -> (event, result)
@@ -95,13 +95,13 @@ def stub_names():
 class Obligation:
     def __init__(self, name, prop, harness, entry, tus, defs=None, libdefs=None, cdefs=None, unwind=8, unwindset=None,
                  tier='quick', timeout=240, mem_gb=6, pipeline='O1', kf=None, solver=None, extra_stub=None, note='', bounds='',
-                 seltest=True, cbmc_extra=None):
+                 seltest=True, cbmc_extra=None, extra_c=None, engine='E1'):
         self.name = name; self.prop = prop; self.harness = harness; self.entry = entry; self.tus = list(tus)
         self.defs = dict(defs or {}); self.libdefs = dict(libdefs or {}); self.cdefs = dict(cdefs or {})
         self.unwind = unwind; self.unwindset = dict(unwindset or {}); self.tier = tier; self.timeout = timeout
         self.mem_gb = mem_gb; self.pipeline = pipeline; self.kf = kf; self.solver = solver
         self.extra_stub = list(extra_stub or []); self.note = note; self.bounds = bounds; self.seltest = seltest
-        self.cbmc_extra = list(cbmc_extra or [])
+        self.cbmc_extra = list(cbmc_extra or []); self.extra_c_files = list(extra_c or []); self.engine = engine
 
 
 class Runner:
@@ -158,10 +158,22 @@ class Runner:
         hobj = self.native_obj(os.path.join(VERIF, 'harness', ob.harness), hd, san)
         rd = {'VERIF_KF_ACTIVE': '%du' % self.kf_active, 'VERIF_KF_CONFIRM': '%du' % kf_confirm, 'VERIF_ENTRY': ob.entry}
         robj = self.native_obj(os.path.join(RT, 'native_rt.cpp'), rd, san)
-        cmd = ['g++', '-o', out, hobj, robj] + objs + (['-fsanitize=address,undefined'] if san else []) + ['-lpthread']
-        rc, so, se, w, _ = run(cmd, timeout=300)
+        base = ['g++', '-o', out, hobj, robj] + objs + (['-fsanitize=address,undefined'] if san else []) + ['-lpthread', '-Wl,--no-demangle']
+        rc, so, se, w, _ = run(base, timeout=300)
         if rc != 0:
-            raise BuildError('native link failed:\n%s' % se[-3000:])
+            # kinds the harness never calls (e.g. the generic loader's other cases) are not linked in: give the
+            # missing symbols weak definitions that abort if ever reached
+            syms = sorted(set(re.findall(r"undefined reference to `([^']+)'", se)))
+            if not syms:
+                raise BuildError('native link failed:\n%s' % se[-3000:])
+            asm = out + '_weak.s'
+            with open(asm, 'w') as f:
+                f.write('.text\n')
+                for sy in syms: f.write('.weak %s\n%s:\n' % (sy, sy))
+                f.write('  call abort\n')
+            rc, so, se, w, _ = run(base + [asm], timeout=300)
+            if rc != 0:
+                raise BuildError('native link failed:\n%s' % se[-3000:])
         return out
 
     def odir(self, ob):
@@ -245,7 +257,7 @@ class Runner:
         if ob.solver == 'kissat': cmd += ['--external-sat-solver', 'kissat']
         elif ob.solver == 'cadical': cmd += ['--sat-solver', 'cadical']
         rc, so, se, w, rss = run(cmd, timeout=ob.timeout, mem_gb=ob.mem_gb * 2.5)
-        open(os.path.join(d, 'cbmc%s.out' % tag), 'w').write(so + '\n--- stderr ---\n' + se)
+        open(os.path.join(d, 'cbmc%s.out' % tag), 'w').write('CMD: ' + ' '.join(cmd) + '\n' + so + '\n--- stderr ---\n' + se)
         res = dict(cmd=' '.join(cmd), wall_s=round(w, 1), rc=rc)
         if rc is None:
             res['status'] = 'timeout'; return res
@@ -295,6 +307,7 @@ class Runner:
         elif 'REPLAY-ASSERT-FAILED' in so: r['outcome'] = 'confirmed'; r['how'] = so.strip().split('\n')[-1]
         elif 'AddressSanitizer' in se: r['outcome'] = 'confirmed'; r['how'] = 'AddressSanitizer: ' + (re.search(r'ERROR: AddressSanitizer: ([^\n]*)', se) or [0, '?'])[1]
         elif rc == 0: r['outcome'] = 'unconfirmed'; r['how'] = 'native run completes without failure'
+        elif rc in (126, 127, 5): r['outcome'] = 'unconfirmed'; r['how'] = 'replay binary could not be run (machinery error): ' + se[-200:]
         elif rc < 0 or rc in (134, 139, 66): r['outcome'] = 'confirmed'; r['how'] = 'native run crashes (rc %s) %s' % (rc, se.strip().split('\n')[-1][:200] if se.strip() else '')
         else: r['outcome'] = 'confirmed'; r['how'] = 'native run fails rc=%s %s' % (rc, (se.strip().split('\n')[-1][:200] if se.strip() else ''))
         return r
